@@ -1429,7 +1429,17 @@ class ComputeGraph(MultiDiGraph):
             if type(n) is ComputeVar:
                 node_names.append(node)
             else:
-                node_names.append(list(self._get_inputs(node))[-1])
+                # the variable that an indexed assignment writes to is the first argument of the index call; with an
+                # index given by a variable (several slots at once) it is not necessarily the last input of the node
+                inputs = list(self._get_inputs(node))
+                target = inputs[-1]
+                try:
+                    first_arg = getattr(n.expr.args[0], 'name', None)
+                    if first_arg in inputs:
+                        target = first_arg
+                except (AttributeError, IndexError):
+                    pass
+                node_names.append(target)
             node_keys.append(node)
 
         keys, values, defined_vars, undefined_vars = [], [], [], []
